@@ -32,6 +32,10 @@ DBL_MAX_MAN = (1 << 53) - 1          # DBL_MAX = (2^53-1) * 2^971
 OVF_NUM, OVF_EXP = (1 << 54) - 1, 970   # rounding boundary 2^1024 - 2^970 = (2^54-1) * 2^970
 
 
+class HarnessError(BaseException):
+    """a disagreement inside the oracle: must crash the worker (-> inconclusive), never become a verdict"""
+
+
 def shards(tier, seed):
     return [{'n': CASES[tier]} for _ in range(16)]
 
@@ -301,7 +305,7 @@ def expected_float(raw):
     ref = Q.to_float_ref(x)
     twin = float_ref_twin(x)
     if twin is None or twin != ref:
-        raise RuntimeError('harness: float reference twins disagree on %r: %r %r' % (raw, ref, twin))
+        raise HarnessError('harness: float reference twins disagree on %r: %r %r' % (raw, ref, twin))
     return 'asserted', ref
 
 
@@ -402,6 +406,15 @@ TO_ROUTES = ['float', 'float-lowprec', 'to_float-strict', 'to_float-n', 'complex
 
 def run_case(mpm, rec, r, i):
     kind = KINDS[i % len(KINDS)]
+    try:
+        _dispatch(mpm, rec, r, i, kind)
+    except Exception as e:
+        rec.case((kind, i, 'raised'), True, cls=kind + '/raised')
+        rec.violation('C09/%s/exception' % kind, 'conversion raised %s' % type(e).__name__, {'kind': 'raised', 'class': kind},
+                      repr(e)[:300], 'a value')
+
+
+def _dispatch(mpm, rec, r, i, kind):
     j = i // len(KINDS)
     if kind == 'from/pattern':
         check_from(mpm, rec, r, gen_bits(r), FROM_ROUTES[j % len(FROM_ROUTES)])
